@@ -695,7 +695,10 @@ pub fn deep_doc(kind: usize, depth: usize) -> String {
 }
 
 pub fn wide_doc(kind: usize, n: usize) -> String {
-    match kind % 4 {
+    match kind % 6 {
+        // very many documents: null-like ones are skipped by the iterators, one after the other
+        4 => "--- ~\n".repeat(n * 15),
+        5 => format!("{}--- 1\n", "---\n".repeat(n * 15)),
         0 => format!("[{}]", vec!["1"; n].join(", ")),
         1 => (0..n).map(|i| format!("k{i}: {i}\n")).collect(),
         2 => format!("a: &x [1, 2, 3]\n{}", (0..n).map(|i| format!("b{i}: *x\n")).collect::<String>()),
@@ -860,7 +863,7 @@ pub fn gen_case(tier: Tier, seed: u64, idx: u64) -> Case {
         }
         9 => {
             origin.push("wide".to_string());
-            wide_doc(rng.below(4), *rng.pick(&[10, 300, 3000, 20_000]))
+            wide_doc(rng.below(6), *rng.pick(&[10, 300, 3000, 20_000]))
         }
         10 => {
             origin.push("rc-graph".to_string());
